@@ -442,11 +442,18 @@ def _setup(name):
         for k, v in zip(POOL_NAMES, pool()):
             p.set_variable(k, v)
         p.set_function('ID', lambda *a: a[0] if a else None)
+        # empty and ragged arrays, which no literal can spell: only the host can hand them over
+        p.set_variable('vempty', [])
+        p.set_variable('vragged', [[1, 2], []])
+        p.set_variable('vnest0', [[]])
 
         def on_cell(cell, setter):
             setter(CELLS.get(cell.label))
 
         def on_range(start, end, setter):
+            if start.label == 'Z1':
+                setter([] if end.label == 'Z2' else [[1, 2], []])
+                return
             setter([list(r) for r in RANGE_VALUE])
         p.on('callCellValue', on_cell)
         p.on('callRangeValue', on_range)
@@ -1596,6 +1603,17 @@ def cases(rng, ctx):
                       'MAXIFS({1,2,3},%s,%s)' % (arr, pat), 'MATCH(%s,%s,0)' % (pat, arr), 'SEARCH(%s,%s)' % (pat, text),
                       'FIND(%s,%s)' % (pat, text), 'SUBSTITUTE(%s,%s,"x")' % (text, pat)]
     out.append({'kind': 'strings', 'stream': 'fn-pattern', 'items': items})
+
+    # ---- (c''') every registered function on empty and ragged arrays supplied by the host (a variable bound to [], to [[1,2],[]],
+    # to [[]]; a range listener answering [] or [[1,2],[]])
+    for name in names:
+        empt = ['vempty', 'vragged', 'vnest0', 'Z1:Z2', 'Z1:Z3']
+        items = ['%s(%s)' % (name, a) for a in empt]
+        items += ['%s(%s,%s)' % (name, a, b) for a in empt for b in ('1', '"a"', 'vempty')] + ['%s(%s,%s)' % (name, b, a) for a in empt for b in ('1', '"a"')]
+        items += ['%s(1,%s,2)' % (name, a) for a in empt] + ['%s(%s,1,1)' % (name, a) for a in empt]
+        out.append({'kind': 'strings', 'stream': 'fn-empty', 'items': items})
+    out.append({'kind': 'strings', 'stream': 'fn-empty', 'items': ['vempty', 'vempty+1', '1-vragged', 'vempty&"a"', 'vempty=vempty', '-vempty', 'Z1:Z2',
+                                                                   'Z1:Z3*2', '{1,2}+vempty', 'vnest0*vnest0', 'IF(vempty,1,2)']})
 
     # ---- (d) host callbacks
     for how in RET_HOWS + RAISE_HOWS + REENTER_HOWS:
